@@ -29,8 +29,10 @@ type fxHarness struct {
 	collT mIface
 }
 
-func (c *Ctx) newFxHarness() *fxHarness {
-	h := &fxHarness{vxHarness: c.newVxHarness("TypeUnsafeVariantOperations")}
+func (c *Ctx) newFxHarness() *fxHarness { return c.newFxHarnessFor("TypeUnsafeVariantOperations") }
+
+func (c *Ctx) newFxHarnessFor(manager string) *fxHarness {
+	h := &fxHarness{vxHarness: c.newVxHarness(manager)}
 	if h.fault != "" {
 		return h
 	}
@@ -306,9 +308,10 @@ func (c *Ctx) funcxRun() map[string]*simpleVerdict {
 		}()
 	}
 	wg.Wait()
-	// ---- selection, folding, construction on constants -------------------------------------------------
-	{
-		h := c.newFxHarness()
+	// ---- selection, folding, construction on constants, under both managers -----------------------------
+	for _, manager := range managers {
+		h := c.newFxHarnessFor(manager)
+		mgrTag := " [" + manager + "]"
 		ints := func(ns ...int64) func() []mv {
 			return func() []mv {
 				var ps []mv
@@ -318,7 +321,26 @@ func (c *Ctx) funcxRun() map[string]*simpleVerdict {
 				return ps
 			}
 		}
-		expect := func(name string, mk func() []mv, wantTag, wantExpr, what string) {
+		expect := func(name string, mk0 func() []mv, wantTag, wantExpr, what string) {
+			what += mgrTag
+			// the arguments are the caller's: a function must not change them
+			var before []string
+			var held []mv
+			mk := func() []mv {
+				held = mk0()
+				before = before[:0]
+				for _, p := range held {
+					before = append(before, h.typeOf(p)+":"+h.payloadOf(p))
+				}
+				return held
+			}
+			defer func() {
+				for i, p := range held {
+					if now := h.typeOf(p) + ":" + h.payloadOf(p); i < len(before) && now != before[i] {
+						note("semantics", fmt.Sprintf("%s changes its argument %d from %s to %s: arguments belong to the caller (constants and variables of the compiled expression)", what, i+1, before[i], now), "")
+					}
+				}
+			}()
 			for _, oc := range h.calc(name, false, mk) {
 				switch {
 				case oc.kind == "opaque":
@@ -358,6 +380,20 @@ func (c *Ctx) funcxRun() map[string]*simpleVerdict {
 		expect("Min", ints(4, 7), "Integer", "4", "Min(4,7)")
 		expect("Max", ints(4, 7, 1, 9, 3), "Integer", "9", "Max(4,7,1,9,3)")
 		expect("Sum", ints(1, 2, 3, 4, 5, 6, 7, 8, 9, 10), "Integer", "55", "Sum(1..10)")
+		// extremes over mixed numeric types (cases on which comparing in either operand's type agrees)
+		mixed := func(t1 string, v1 interface{}, t2 string, v2 interface{}) func() []mv {
+			return func() []mv { return []mv{h.variant(t1, v1), h.variant(t2, v2)} }
+		}
+		if manager == "TypeUnsafeVariantOperations" {
+			expect("Min", mixed("Double", float64(1.4), "Integer", int64(1)), "Integer", "1", "Min(1.4, 1)")
+			expect("Min", mixed("Double", float64(2.5), "Long", int64(1)), "Long", "1", "Min(2.5, 1L)")
+			expect("Min", mixed("Integer", int64(2), "Double", float64(0.5)), "Double", "0.5", "Min(2, 0.5)")
+			expect("Min", mixed("Double", float64(0.5), "Integer", int64(2)), "Double", "0.5", "Min(0.5, 2)")
+			expect("Max", mixed("Double", float64(1.4), "Integer", int64(2)), "Integer", "2", "Max(1.4, 2)")
+			expect("Max", mixed("Double", float64(-1.5), "Integer", int64(-1)), "Integer", "-1", "Max(-1.5, -1)")
+			expect("Max", mixed("Integer", int64(2), "Double", float64(0.5)), "Integer", "2", "Max(2, 0.5)")
+			expect("Max", mixed("Double", float64(2.5), "Long", int64(1)), "Double", "2.5", "Max(2.5, 1L)")
+		}
 		strs := func(ss ...string) func() []mv {
 			return func() []mv {
 				var ps []mv
@@ -490,11 +526,7 @@ func (c *Ctx) funcxRun() map[string]*simpleVerdict {
 			}
 			h.m.symFunc = nil
 		}
-		for _, oc := range h.calc("Date", false, longs(86400)) {
-			if oc.kind == "value" && (oc.tag != "DateTime" || oc.expr != "time.Unix(86400,0)") {
-				note("semantics", fmt.Sprintf("Date(86400) returns %s %s; a single argument is a Unix time: time.Unix(86400,0)", oc.tag, oc.expr), "")
-			}
-		}
+		expect("Date", longs(86400), "DateTime", "time.Unix(86400,0)", "Date(86400L) (a single argument is a Unix time)")
 	}
 	return res
 }
